@@ -28,6 +28,20 @@ CHECKS = {
 
 NOT_APPLICABLE = []
 
+CHECKS['C04'] = (
+    'symbolic execution of the real join evaluation over symbolic upstream '
+    'rows; bounded exploration of real engine runs with join invariants '
+    'checked after every delivery; two engine processes racing to create '
+    'the same join with solver-chosen statement interleaving on minidb '
+    '(READ COMMITTED overlay, unique-index and row locks)',
+    'A join is logically RUNNING / ERROR exactly when the reference says; in '
+    'all explored runs a started join has the required completed-and-routed '
+    'inbound tasks and no task is created twice; under every interleaving '
+    'with <= 2-3 context switches of two concurrent branch completions '
+    'exactly one join row survives and the join runs once. Known finding '
+    'F14 (late inbound branch resets a started join) is reported.',
+    '§3 C04')
+
 CHECKS['C02'] = (
     'bounded exploration of pairs of runs of the real engine on minidb '
     '(delivery order, action outcomes, guard values, id order as solver '
